@@ -1,4 +1,5 @@
 (* C20 - Option values are interpreted like protoc.  Statements only; proofs are in Proofs/Options.v.
+   The model is that of the code after the repairs bb1a10d1, 36246e7a and f7db43f0 (see Model/Options.v).
    Model: Model/Options.v (mirror of options/options.go).  Specification: Model/ProtocOptions.v. *)
 From Coq Require Import List ZArith NArith Bool String.
 From PV Require Import Model.Options Model.ProtocOptions Proofs.Options.
@@ -40,46 +41,29 @@ Print Assumptions C20_bool_coercion.
 
 (* Model = specification, for every schema, every element target, every options message and every list of
    statements: the strict run ends in the options message protoc computes, or both reject.
-   Guards (see the two refutations below): every field of the schema has explicit presence; no identifier in the
-   statements is a letter-case variant of inf / infinity / nan other than inf and nan (stmts_lexable also says that
-   integer literals are what the lexer produces: negative ones fit int64, the others uint64). *)
-Theorem C20_interpret_eq_protoc_partial : forall sch tt,
-  schema_wf sch = true -> schema_explicit sch = true ->
+   Hypotheses: the schema is well formed (what descriptors guarantee: a repeated field is in no oneof, a field
+   without presence is a singular scalar outside oneofs) and the integer literals are what the lexer produces
+   (negative ones fit int64, the others uint64; larger ones are float literals). *)
+Theorem C20_interpret_eq_protoc : forall sch tt,
+  schema_wf sch = true ->
   forall T m0 stmts, stmts_lexable stmts = true ->
   same_outcome (interpret_strict sch tt T m0 stmts) (protoc_interpret sch tt true T m0 stmts).
-Proof. exact interpret_eq_protoc_partial_lemma. Qed.
-Print Assumptions C20_interpret_eq_protoc_partial.
-
-(* The code as it is does not meet the specification on fields without presence (proto3 fields that are not
-   optional): after (foo).a = 0 the field does not count as set, so (foo).a = 5 is accepted; protoc rejects. *)
-Theorem C20_interpret_eq_protoc_refuted :
-  exists sch tt T stmts,
-    schema_wf sch = true /\ stmts_lexable stmts = true /\
-    ~ same_outcome (interpret_strict sch tt T [] stmts) (protoc_interpret sch tt true T [] stmts).
-Proof. exact interpret_eq_protoc_refuted_lemma. Qed.
-Print Assumptions C20_interpret_eq_protoc_refuted.
-
-(* ... and inside message literals on the special float words: protoc reads inf, infinity and nan in any letter case
-   there, the code only inf and nan (and, after a minus sign, any case, because the parser lowers those). *)
-Theorem C20_interpret_eq_protoc_refuted_float_words :
-  exists sch tt T stmts,
-    schema_wf sch = true /\ schema_explicit sch = true /\
-    ~ same_outcome (interpret_strict sch tt T [] stmts) (protoc_interpret sch tt true T [] stmts).
-Proof. exact interpret_eq_protoc_refuted_words_lemma. Qed.
-Print Assumptions C20_interpret_eq_protoc_refuted_float_words.
+Proof. exact interpret_eq_protoc_lemma. Qed.
+Print Assumptions C20_interpret_eq_protoc.
 
 Theorem C20_no_uninterpreted_left_on_success : forall sch tt T m0 stmts m rem,
   interpret_strict sch tt T m0 stmts = Ok (m, rem) -> rem = [].
 Proof. exact no_uninterpreted_left_on_success_lemma. Qed.
 Print Assumptions C20_no_uninterpreted_left_on_success.
 
-(* non-vacuity: a schema that satisfies the guards, statements through a path, a repeated field, a message
+(* non-vacuity: a well-formed schema (with a field without presence and a float field), statements through a path, a repeated field, a message
    literal and a oneof; the strict run succeeds and protoc's interpretation is the same message *)
 Definition nv_schema : schema :=
   mkSchema [mkMsg [mkField "deprecated" 3%N KBool false None false []];
             mkMsg [mkField "a" 1%N KInt32 false None false []; mkField "r" 3%N KUint64 true None false [];
                    mkField "sub" 4%N (KMsg 1) false None false [];
-                   mkField "x" 5%N KString false (Some 0%nat) false []; mkField "y" 6%N KBool false (Some 0%nat) false []]]
+                   mkField "x" 5%N KString false (Some 0%nat) false []; mkField "y" 6%N KBool false (Some 0%nat) false [];
+                   mkField "z" 7%N KInt32 false None true []; mkField "fl" 8%N KFloat false None false []]]
            [mkEnum [("A", 0); ("B", 1)] true]
            [mkExt "foo" 0%nat (mkField "foo" 50001%N (KMsg 1) false None false []);
             mkExt "e" 0%nat (mkField "e" 50002%N (KEnum 0) false None false [])].
@@ -89,12 +73,16 @@ Definition nv_stmts : list stmt :=
    mkStmt [PExt "foo"; PField "r"] (OUint 18446744073709551615);
    mkStmt [PExt "foo"; PField "sub"; PField "r"] (OUint 1);
    mkStmt [PExt "e"] (OIdent "B");
-   mkStmt [PExt "foo"; PField "sub"; PField "sub"] (OMsg [(LField "y", OIdent "t"); (LField "r", OList [OUint 2; OUint 3])])].
+   mkStmt [PExt "foo"; PField "z"] (OUint 0);
+   mkStmt [PExt "foo"; PField "sub"; PField "a"] (OInt (-2147483648));
+   mkStmt [PExt "foo"; PField "sub"; PField "sub"] (OMsg [(LField "y", OIdent "t"); (LField "r", OList [OUint 2; OUint 3])]);
+   mkStmt [PExt "foo"; PField "sub"; PField "sub"; PField "sub"] (OMsg [(LField "fl", OIdent "Infinity"); (LField "z", OUint 0)]);
+   mkStmt [PExt "foo"; PField "sub"; PField "sub"; PField "sub"; PField "z"] (OUint 4)].
 Example C20_nonvacuous :
-  schema_wf nv_schema = true /\ schema_explicit nv_schema = true /\ stmts_lexable nv_stmts = true /\
+  schema_wf nv_schema = true /\ stmts_lexable nv_stmts = true /\
   exists m, interpret_strict nv_schema 3%N 0%nat [] nv_stmts = Ok (m, []) /\
             protoc_interpret nv_schema 3%N true 0%nat [] nv_stmts = Ok m /\ m <> [].
 Proof.
-  split; [reflexivity|]. split; [reflexivity|]. split; [reflexivity|].
+  split; [reflexivity|]. split; [reflexivity|].
   eexists. split; [vm_compute; reflexivity|]. split; [vm_compute; reflexivity|discriminate].
 Qed.
